@@ -362,16 +362,22 @@ def flatten(tree, scale=Fraction(1)):
 
 
 def read_bar(tree):
-    """One bar = one brace group: {'times': [(n,d)..], 'keys': [(tonic, mode)..], 'entries': [...]}.
+    """One bar = one brace group: {'times': [(n,d)..], 'keys': [(tonic, mode)..], 'entries': [...],
+    'late': number of \\time/\\key commands that follow an entry of the bar (they would only take
+    effect after those entries)}.
 
     An entry is {'notes': None | [(name, octave)..], 'base': Fraction|None, 'dots': int|None,
     'scale': Fraction}.  The tuplet ratio r1:r2 of an entry is 1/scale."""
     flat = flatten(tree)
-    return {
-        "times": [(x[1], x[2]) for x in flat if x[0] == "time"],
-        "keys": [(x[1], x[2]) for x in flat if x[0] == "key"],
-        "entries": [x[1] for x in flat if x[0] == "event"],
-    }
+    out = {"times": [], "keys": [], "entries": [], "late": 0}
+    for x in flat:
+        if x[0] == "event":
+            out["entries"].append(x[1])
+        else:
+            out["times" if x[0] == "time" else "keys"].append((x[1], x[2]))
+            if out["entries"]:
+                out["late"] += 1          # a signature written after entries of its own bar
+    return out
 
 
 def read_track(tree):
@@ -452,18 +458,20 @@ def selftest():
         ("{ \\time 4/4 \\key fis \\minor }", (4, 4), ("F#", "minor"), []),
     ]:
         b = read_bar(parse_music(s))
-        assert b == {"times": [time], "keys": [key], "entries": ents}, s
+        assert b == {"times": [time], "keys": [key], "entries": ents, "late": 0}, s
     t = read_track(parse_music("{ { c'4 e'4 g'4 b'4 } }"))
-    assert t == [{"times": [], "keys": [], "entries": cegb(4)}]
+    assert t == [{"times": [], "keys": [], "entries": cegb(4), "late": 0}]
     t = read_track(parse_music("{ { c'4 e'4 g'4 b'4 } { \\key e \\major c'4 e'4 g'4 b'4 } }"))
-    assert t == [{"times": [], "keys": [], "entries": cegb(4)}, {"times": [], "keys": [("E", "major")], "entries": cegb(4)}]
+    assert t == [{"times": [], "keys": [], "entries": cegb(4), "late": 0},
+                 {"times": [], "keys": [("E", "major")], "entries": cegb(4), "late": 0}]
     c = read_composition('\\header { title = "Untitled" composer = "" opus = "" } { { c\'4 e\'4 g\'4 b\'4 } }')
     assert c["header"] == {"title": "Untitled", "composer": "", "opus": ""}
-    assert c["tracks"] == [[{"times": [], "keys": [], "entries": cegb(4)}]]
+    assert c["tracks"] == [[{"times": [], "keys": [], "entries": cegb(4), "late": 0}]]
     c = read_composition("\\header { title = \"Untitled\" composer = \"\" opus = \"\" } { { c'4 e'4 g'4 b'4 } } "
                          "{ { c'4 e'4 g'4 b'4 } { \\key e \\major c'4 e'4 g'4 b'4 } }")
     assert [len(tr) for tr in c["tracks"]] == [1, 2]
-    assert c["tracks"][1][1] == {"times": [], "keys": [("E", "major")], "entries": cegb(4)}
+    assert c["tracks"][1][1] == {"times": [], "keys": [("E", "major")], "entries": cegb(4), "late": 0}
+    assert read_bar(parse_music("{ c4 \\key d \\minor e4 \\time 3/4 }"))["late"] == 2
     return True
 
 
